@@ -19,6 +19,7 @@ func checkC01(c *an.Ctx) {
 	c.Rule("C01.3", "publish after run (E3): in the stage goroutine every Done/Error write is dominated by the synchronous call that reaches Runner.Run; no go edge between the goroutine and Runner.Run / nested Schedule")
 	c.Rule("C01.4", "atomic status (E4): Stage.Status is written only by atomic.StoreInt32 in UpdateStatus and read in pkg/scheduler only by atomic.LoadInt32")
 	c.Rule("C01.5", "edges (E4/E5): AddStage reaches the edge recorder for every dependency with (dep, stage.Name); the recorder updates from[a]∪={b}, to[b]∪={a} unconditionally; nothing else writes from/to; To/From return the entries unmodified")
+	c.Rule("C01.6", "finished stays finished (premise of the gate and of the launch guard; same rule as C02.5): statuses are written as constants, Waiting is never written, Running only by the scheduling side on a stage seen Waiting — a dependency that was seen Done cannot be running again when its dependant starts")
 	c.NotDecided = append(c.NotDecided,
 		"real interleavings and the Go memory model beyond 'all status accesses are atomic'",
 		"a stage graph shared by two concurrently running schedulers",
@@ -33,6 +34,7 @@ func checkC01(c *an.Ctx) {
 	publishAfterRun(c, s, "C01.3")
 	atomicStatus(c, s, "C01.4")
 	edgeWiring(c, s, "C01.5")
+	monotoneStatus(c, s, "C01.6")
 }
 
 // gateRow is the result of exploring the gate's loop body for one row.
